@@ -11,7 +11,7 @@ CFG={
  "C01":("rpMap(t)",MAP),"C06":("rpMap(t)",MAP),"C13":("rpMap(t)",MAP),
  "C02":("rpMap(t); rpDecode(t); rpFlush(t); rpScan(t)","an independent decoder of the file reconstructs the store's state after every Flush; "+"the histories of the C01 harness (which re-open the file after a Flush and compare with the model); "+FLUSH+"; "+SCAN),
  "C03":("rpScan(t); rpFlush(t); rpCrash(t)",SCAN+"; "+FLUSH+"; crash at any point: 4 histories of 4 flushes (uncommitted values containing the magic markers and root-record fragments, a removed collection): EVERY byte-granular prefix of the file between two completed flushes re-opens to exactly the state of the earlier one (or fails with the no-roots error before the first flush completed), and the recovered store flushes again"),
- "C14":("rpDecode(t); rpScan(t); rpFlush(t)","an INDEPENDENT decoder of the v4 layout (root record framing and JSON, 52-byte node records, 16-byte item headers; children and items before their parent; exact aggregates in every node record) reconstructs, after every Flush of 8 pseudo-random multi-collection histories, exactly the store's state; "+SCAN+"; "+FLUSH),
+ "C14":("rpDecode(t); rpScan(t); rpFlush(t)","an INDEPENDENT decoder of the v4 layout (root record framing and JSON, 52-byte node records, 16-byte item headers; children and items before their parent; exact aggregates in every node record) reconstructs, after every Flush of 8 pseudo-random multi-collection histories (collection names include ones that JSON must escape: quote, backslash, C0 control characters, DEL, non-ASCII, a code point beyond the BMP), exactly the store's state; "+SCAN+"; "+FLUSH),
  "C09":("rpFlush(t); rpScan(t); rpLazy(t)",FLUSH+"; opening any of the corpus files writes nothing"),
  "C08":("rpRevert(t)","8 pseudo-random histories of 2..5 flushes over two collections (values up to 700 bytes, a removed collection), unflushed changes on top, then FlushRevert step by step down to the empty store and once more: file length, store contents and re-opened contents equal the state of the flush reverted to; FlushRevert on the empty store returns; memory-only stores refuse"),
  "C17":("rpNeutral(t)","one fixed pseudo-random history of 80 steps (SetItem incl. nil values, Delete, Flush, close + re-open, eviction; after each step Get, Exist, GetTotals and a full visit) played without callbacks, with 6 subsets of neutral callbacks, and with a RECYCLING reference counter (ItemAlloc/ItemAddRef/ItemDecRef that overwrite an item's key and value bytes when its count returns to zero, as a pooling allocator reusing the buffers would): the traces of everything observable (incl. Len, a block visit and MinItem every fifth step), and the final file length, must be identical"),
